@@ -228,13 +228,22 @@ def _is_normal_reduce_expr(expr: IndexLambda) -> bool:
 
     input_ary = expr.bindings[expr.expr.inner_expr.aggregate.name]
 
+    if len(expr.expr.inner_expr.index_tuple) != input_ary.ndim:
+        return False
+
     i_out_dim = 0
+    seen_redn_vars: set[str] = set()
 
     for idim, idx in enumerate(expr.expr.inner_expr.index_tuple):
         if not isinstance(idx, p.Variable):
             return False
 
         if idx.name in expr.expr.bounds:
+            if idx.name in seen_redn_vars:
+                # e.g. a trace: sum(a[_r0, _r0]) is not sum(a, axis=(0, 1))
+                return False
+            seen_redn_vars.add(idx.name)
+
             lbound, ubound = expr.expr.bounds[idx.name]
             if (not isinstance(lbound, int) or not isinstance(ubound, int)):
                 raise NotImplementedError("Parametric bound expressions not"
@@ -245,6 +254,8 @@ def _is_normal_reduce_expr(expr: IndexLambda) -> bool:
                 return False
         else:
             if idx.name == f"_{i_out_dim}":
+                if i_out_dim >= len(expr.shape):
+                    return False
                 if not are_shape_components_equal(input_ary.shape[idim],
                                                   expr.shape[i_out_dim]):
                     return False
@@ -252,7 +263,10 @@ def _is_normal_reduce_expr(expr: IndexLambda) -> bool:
             else:
                 return False
 
-    return True
+    # every reduction variable must index the operand, and every output axis
+    # must be consumed
+    return (seen_redn_vars == set(expr.expr.bounds)
+            and i_out_dim == len(expr.shape))
 
 
 _SIMPLE_PYMBOLIC_BINARY_OP_MAP = {p.Sum:        BinaryOpType.ADD,
